@@ -1,10 +1,14 @@
 package checks
 
 import (
+	"errors"
 	"fmt"
+	"regexp"
+	"strconv"
 	"strings"
 
 	"evylang.dev/evy/pkg/evaluator"
+	"evylang.dev/evy/pkg/parser"
 
 	"verif/core"
 	"verif/mon"
@@ -105,9 +109,12 @@ func c14Program(c *core.Ctx) c14Prog {
 		seg := c14Segment(c, k, &funcs)
 		p.segs = append(p.segs, seg)
 		fmt.Fprintf(&body, "print \"M%d\"\n%sprint \"M%d\"\n", 2*k, seg.code, 2*k+1)
-		switch r.Intn(7) {
+		switch r.Intn(8) {
 		case 5:
 			body.WriteString("test 1 2\ntest false\n")
+		case 6:
+			funcs.WriteString(fmt.Sprintf("func tsum%d:num n:num\n    t := 0\n    for i := range n\n        t = t + i\n    end\n    return t\nend\n", k))
+			body.WriteString(fmt.Sprintf("test (tsum%d 4) 6\ntest 3 (tsum%d 3)\ntest (tsum%d 2) (tsum%d 2) \"msg\"\n", k, k, k, k))
 		case 0:
 			body.WriteString("s = s + (read)\n")
 		case 1:
@@ -151,6 +158,8 @@ func c14Program(c *core.Ctx) c14Prog {
 	p.src = funcs.String() + body.String()
 	return p
 }
+
+var summaryNumRe = regexp.MustCompile(`\d+`)
 
 func isSummary(e string) bool {
 	return strings.HasPrefix(e, "print \"✅") || strings.HasPrefix(e, "print \"❌")
@@ -221,6 +230,7 @@ func c14Run(c *core.Ctx, i int) {
 	if p.kind != "terminating" && p.kind != "looping-handler" && !rec.BudgetHit {
 		c.Violation("endless-program-ended", "an endless program ended by itself: "+T.Class+" "+T.ErrText, p.src, nil)
 	}
+	hasTests := strings.Contains(p.src, "test ")
 	// stop points
 	maxPts := 300
 	if c.Tier == "thorough" {
@@ -242,7 +252,38 @@ func c14Run(c *core.Ctx, i int) {
 	for _, k := range pts {
 		c.Event("stop_points", 1)
 		c.Distinct(fmt.Sprintf("%s|y%d", p.src, k))
-		o := plat.Run(p.src, plat.Opts{Inputs: inputs, Events: p.events, StopAtYield: k, YieldBudget: budget + 10})
+		testsDone := 0
+		opts := plat.Opts{Inputs: inputs, Events: p.events, StopAtYield: k, YieldBudget: budget + 10}
+		if hasTests {
+			// count the test calls that really completed in this interrupted run (hook), to judge the summary
+			opts.Attach = func(ev *evaluator.Evaluator) {
+				ev.VerifObserve(&evaluator.VerifObserver{Exit: func(node parser.Node, _ evaluator.VerifValue, err error) {
+					name := ""
+					switch n := node.(type) {
+					case *parser.FuncCall:
+						name = n.Name
+					case *parser.FuncCallStmt: // a call statement evaluates its call without a step of its own
+						name = n.FuncCall.Name
+					}
+					if name == "test" && (err == nil || errors.Is(err, evaluator.ErrTest)) {
+						testsDone++
+					}
+				}})
+			}
+		}
+		o := plat.Run(p.src, opts)
+		if hasTests && len(o.Events) > 0 && isSummary(o.Events[len(o.Events)-1]) {
+			c.Event("summaries_checked", 1)
+			total := 0
+			for _, m := range summaryNumRe.FindAllString(o.Events[len(o.Events)-1], -1) {
+				v, _ := strconv.Atoi(m)
+				total += v
+			}
+			if total != testsDone {
+				c.Violation("stop-at-yield:summary", fmt.Sprintf("stop raised inside yield %d: the test summary %s counts %d tests, %d test calls had completed", k, o.Events[len(o.Events)-1], total, testsDone), p.src, map[string]any{"stop_at_yield": k})
+				break
+			}
+		}
 		if why := c14Judge(T, o, k, rec.YieldMarks, n); why != "" {
 			c.Violation("stop-at-yield:"+strings.SplitN(why, ":", 2)[0], fmt.Sprintf("stop raised inside yield %d of %d: %s", k, T.Yields, why), p.src, map[string]any{"stop_at_yield": k})
 			break
